@@ -14,6 +14,7 @@ type c14Decl struct {
 	N   int               `long:"num"`
 	M   map[string]string `long:"map"`
 	B   bool              `long:"bb"`
+	C   string            `long:"cho" choice:"lo" choice:"hi"`
 	Grp c14Grp            `group:"Grp"`
 }
 
@@ -131,6 +132,9 @@ func H_C14_lines(v *V) {
 		faultText = "= v"
 	case 9:
 		faultText = "map = k:"
+	case 10:
+		// a value outside the option's declared choices (also the empty value)
+		faultText = "cho = " + []string{"mid", "", "Lo"}[v.Choice(3)]
 	}
 	if fault != 0 {
 		lines = append(lines, faultText)
